@@ -3,6 +3,7 @@ package props
 import (
 	"bytes"
 	"fmt"
+	applog "github.com/godaddy/asherah/go/appencryption/pkg/log"
 	"time"
 
 	"verif/sim/refimpl"
@@ -46,11 +47,29 @@ func runC01(t *simrt.Tape, o Opts) Outcome {
 		// a metastore that suffixes key ids with its region (one history in four), possibly with records
 		// and keys that were written before the suffix was switched on
 		legacyWriter := false
+		otherRegion := ""
+		regions := []string{"us-west-2", "r1", "us-east-1", "eu-west-1"}
 		if t.Choose(4, "region-suffix") == 1 {
-			w.Suffix = []string{"us-west-2", "r1"}[t.Choose(2, "region-suffix.which")]
+			ri := t.Choose(len(regions), "region-suffix.which")
+			w.Suffix = regions[ri]
 			legacyWriter = t.Choose(2, "legacy-writer") == 1
+			// a global table: records and keys written in another region are read in this one
+			if t.Choose(2, "other-region-writer") == 1 {
+				otherRegion = regions[(ri+1+t.Choose(len(regions)-1, "other-region.which"))%len(regions)]
+			}
 		}
-		h := &hist{w: w, t: t, parts: world.Partitions[:1+t.Choose(4, "nparts")], maxProc: 3}
+		parts := world.Partitions
+		if t.Choose(3, "realistic-ids") == 1 {
+			// ids as deployments choose them: words, hyphens, digits, shared substrings
+			w.Service, w.Product = "accounts", "us-payments"
+			parts = []string{"tenant-1", "tenant-2", "user_42", "eu-cust-7", "tenant-10"}
+		}
+		h := &hist{w: w, t: t, parts: parts[:1+t.Choose(4, "nparts")], maxProc: 3}
+		if t.Choose(5, "debug-log") == 1 {
+			// the application has wired up the SDK's debug log: every debug line is rendered
+			applog.SetLogger(renderLogger{})
+			defer applog.SetLogger(nil)
+		}
 		h.gen = world.GenOpts{SmallCaps: t.Choose(2, "smallcaps") == 1, NoSimple: t.Choose(3, "nosimple") == 1, AllowTinyLFU: allowTinyLFU}
 		h.weights = [opKinds]int{opEncrypt: 8, opDecrypt: 8, opOpen: 2, opCloseSess: 2, opAdvance: 3, opRevoke: 1, opForeignRotate: 1, opRestart: 1, opCrash: 1, opNewProc: 1}
 		faulty := t.Choose(2, "faulty") == 1
@@ -68,6 +87,17 @@ func runC01(t *simrt.Tape, o Opts) Outcome {
 				}
 			}
 			w.CloseProc(old)
+		}
+		if otherRegion != "" {
+			w.NextProcSuffix = otherRegion
+			far := h.newProc()
+			w.NextProcSuffix = ""
+			for _, part := range h.parts {
+				if se, err := w.Open(far, part); err == nil {
+					w.Encrypt(se, w.Payload(2))
+				}
+			}
+			w.CloseProc(far)
 		}
 		h.newProc()
 		if faulty {
